@@ -329,7 +329,12 @@ def _s3(program, res):
                     if isinstance(kw.value.elts[0], ast.Constant) and kw.value.elts[0].value == "":
                         suffix = kw.value.elts[1].value
             kws = {kw.arg: unparse(kw.value) for kw in c.keywords}
-            if kws.get("left") != "left" or kws.get("right") != "right":
+            # the two inputs, by role: the frames evaluated from op.sources[0] and op.sources[1]
+            lv = [e["_L"] for (_n, e) in pat.find("_L = self._eval_value_source(op.sources[0], data_map=data_map)", pj_node)]
+            rv = [e["_R"] for (_n, e) in pat.find("_R = self._eval_value_source(op.sources[1], data_map=data_map)", pj_node)]
+            if not lv or not rv:
+                raise AnalysisError("Pandas _natural_join_step: the two evaluated inputs were not found")
+            if kws.get("left") != lv[0] or kws.get("right") != rv[0]:
                 res.fail_at("C16-S3", pj, "pandas-merge-sides", f"pd.merge(left={kws.get('left')}, right={kws.get('right')})", c)
     if suffix is None:
         raise AnalysisError("Pandas _natural_join_step: merge suffixes=('', <right suffix>) not found")
@@ -390,7 +395,9 @@ def polars_join_guard_rule(program, res, rule="C16-S3"):
         if "pl.when" in unparse(n.stmt) and "is_null" in unparse(n.stmt):
             n_c += 1
             conds = [unparse(b.cond) for b, _l in g2.lexical_guards(n)]
-            extra = [c for c in conds if ("how" in c or "jointype" in c) and c.replace(" ", "") not in ("how!='right'", "how=='right'")]
+            hv = [e["_H"] for (_n, e) in pat.find("_H = op.jointype.lower()", plj.node)] or ["how"]
+            side_tests = {f"{hv[0]}!='right'", f"{hv[0]}=='right'"}
+            extra = [c for c in conds if (hv[0] in c or "jointype" in c) and c.replace(" ", "") not in side_tests]
             if extra:
                 res.fail_at(rule, plj, f"polars-coalesce-conditional:{extra[0][:40]}",
                             f"the Polars coalesce of shared columns runs only under `{extra[0]}`: for the excluded join types a shared "
